@@ -10,7 +10,7 @@ import apistream
 import apimodel
 import specgen
 
-RULE = ('frames of 1..4 channels (8 dtypes, scalar or 2-D, with or without a cast dtype incl. narrowing integer casts of out-of-range values), rows 1..10; for each: 4 source kinds x all windows (from, to) incl. open end x '
+RULE = ('[plus windows reaching outside the data (to_idx beyond the rows, negative from_idx): refused, or the rows arr[a:b] selects] frames of 1..4 channels (8 dtypes, scalar or 2-D, with or without a cast dtype incl. narrowing integer casts of out-of-range values), rows 1..10; for each: 4 source kinds x all windows (from, to) incl. open end x '
         'input chunk {None,1,2,3,7} (sampled in quick, exhaustive windows in thorough) x permutation of source fields / datasets x '
         'extra unused datasets x dataset_name mapping. Distinct by (frame index, kind, window, chunk).')
 ASSUMPTIONS = ['h5py / numpy structured-array semantics are trusted']
@@ -132,6 +132,30 @@ def run(ctx):
                         x, y = o[1]['file'], ref[1]['file']
                         pos = next((i for i in range(min(len(x), len(y))) if x[i] != y[i]), min(len(x), len(y)))
                         ctx.violation('file-differs-from-presliced-reference', {**det, 'first_difference_at': pos, 'len': len(x), 'reference_len': len(y)})
+        # windows reaching outside the data: refused, or else the file of the rows Python slicing selects (arr[a:b]) — never
+        # rows that are not there (a one-row remainder used to be broadcast over the whole requested window)
+        outside = [(rows - 1, rows + 1), (rows - 1, rows + 4), (0, rows + 1), (-1, None), (-rows, None), (rows // 2, rows + 3), (-1, rows)]
+        for (a, b) in (outside if ctx.tier == 'thorough' else [rng.choice(outside[:2]), rng.choice(outside[2:])]):
+            kind = rng.choice(['inline', 'dict', 'struct', 'hdf5'])
+            if kind == 'struct' and any('/' in (c.get('dataset') or '') for c in chans):
+                kind = 'dict'
+            perm = list(range(nch))
+            df, data = build(chans, kind, rng, perm)
+            o = write(df, data, (a, b), rng.choice([None, 1, 2]), rows)
+            ctx.count('K-outside', key=(k, kind, a, b))
+            ctx.stat('K-outside', 'refused' if o[0] != 'ok' else 'written')
+            if o[0] == 'ok':
+                sl = slice(a, b)
+                lo, hi, _ = sl.indices(rows)
+                okr = None
+                if hi > lo:
+                    dfr, _ = build(chans, 'inline', rng, perm, sliced=(lo, hi))
+                    okr = impl.outcome(lambda: impl.write_real(dfr))
+                if okr is None or okr[0] != 'ok' or okr[1]['file'] != o[1]['file']:
+                    ctx.violation('window-outside-the-data-written-with-rows-that-are-not-there',
+                                  {'channels': [{kk: c.get(kk) for kk in ('name', 'dtype', 'width', 'seed', 'rows', 'dataset', 'cast')} for c in chans],
+                                   'kind': kind, 'window': [a, b], 'rows': rows, 'file_len': len(o[1]['file']),
+                                   'presliced_len': len(okr[1]['file']) if okr and okr[0] == 'ok' else None})
         if k % 3 == 0:
             ctx.sample({'stream': 'K-sources', 'rows': rows, 'channels': [(c['dtype'], c['width'], c.get('dataset')) for c in chans], 'windows': len(windows)})
     # the dict route against the model (window and chunking inside Model/Write.v)
@@ -139,6 +163,8 @@ def run(ctx):
         rows = rng.randrange(2, 9)
         a = rng.randrange(0, rows)
         b = rng.choice([None] + list(range(a + 1, rows + 1)))
+        if k % 4 == 3:      # outside the data: both sides must refuse
+            a, b = rng.choice([(rows - 1, rows + 2), (0, rows + 1), (-1, None), (-2, rows)])
         prog = [{'op': 'newfile', 'ident': 'MAIN-STORAGE-UNIT', 'seq': 1, 'vrl': 8192},
                 {'op': 'lf', 'fh_id': specgen.r_str('H'), 'fh_seq': specgen.r_int(1)},
                 {'op': 'origin', 'lf': 0, 'name': specgen.r_str('O'), 'set_name': None, 'origin': None, '_fh_id': 'H',
